@@ -7,22 +7,6 @@ From Verif Require Import Model.C13 Proofs.C13 Proofs.C13_writer.
 Import ListNotations.
 Open Scope Z_scope.
 
-(* features a tool may add: scalar (ancillary) features, an enumerating
-   index, ml_class - all with the new number of events *)
-Definition extra_ok (n : Z) (ft : feat) : bool :=
-  match ft_data ft with
-  | Plain l => l =? n
-  | Index v => index_ok v n
-  | MlClass l => l =? n
-  | _ => false
-  end.
-
-(* every fl?_max feature of the source is kept *)
-Definition keeps_channels (keep : list Z) (fl : file) : bool :=
-  forallb (fun ft => match ft_data ft with
-                     | FlMax _ _ => memZ (ft_rank ft) keep
-                     | _ => true end) (f_feats fl).
-
 Lemma enum_from_zseq k m : enum_from k (map (fun i => k + Z.of_nat i) (seq 0 m)) = true.
 Proof.
   revert k. induction m as [|m IH]; intros k; [reflexivity|].
